@@ -6,10 +6,12 @@ pub mod c02;
 pub mod c03;
 pub mod c04;
 pub mod c05;
+pub mod c08;
 pub mod c09;
 pub mod c11;
 pub mod c12;
 pub mod c13;
+pub mod c14;
 pub mod c15;
 pub mod c16;
 pub mod c17;
@@ -25,10 +27,12 @@ pub fn run(id: &str, ctx: &mut Ctx) -> bool {
         "C03" => c03::run(ctx),
         "C04" => c04::run(ctx),
         "C05" => c05::run(ctx),
+        "C08" => c08::run(ctx),
         "C09" => c09::run(ctx),
         "C11" => c11::run(ctx),
         "C12" => c12::run(ctx),
         "C13" => c13::run(ctx),
+        "C14" => c14::run(ctx),
         "C15" => c15::run(ctx),
         "C16" => c16::run(ctx),
         "C17" => c17::run(ctx),
